@@ -123,7 +123,7 @@ fn h11c_connect_all_paths() {
     }
     let inline: bool = kani::any();
     let channel: &str = if inline { "inline" } else { "quic" };
-    let ret = kani::block_on(h11c_connect(IOBufStream(0), ContextRef(0), SocketAddr(1), SocketAddr(2), channel, |sid| mk_frames(sid)));
+    let ret = run_ready(h11c_connect(IOBufStream(0), ContextRef(0), SocketAddr(1), SocketAddr(2), channel, |sid| mk_frames(sid)));
     unsafe {
         let udp = FEATURE == Feature::UdpForward || FEATURE == Feature::UdpBind;
         let tcp = FEATURE == Feature::TcpForward;
@@ -147,4 +147,10 @@ fn h11c_connect_all_paths() {
     }
 }
 
+/// every stub future is immediately ready, so the task completes within one poll (cheaper than kani::block_on's loop)
+pub fn run_ready<F: std::future::Future>(f: F) -> F::Output {
+    let mut f = std::pin::pin!(f);
+    let mut cx = std::task::Context::from_waker(std::task::Waker::noop());
+    match f.as_mut().poll(&mut cx) { std::task::Poll::Ready(v) => v, std::task::Poll::Pending => panic!("stub future pending") }
+}
 fn main() {}
